@@ -46,7 +46,9 @@ func c01Check(r *ev.Run, n *wire.N, h bind.Hist, ret *retained) {
 		b, _, _ := safeEncode(m)
 		inner := vd.S["Message"]
 		if len(b) >= 32 && inner != nil {
-			e := b[24:]
+			// behind the embedded message come the properties, each padded to 8 bytes (12 -> 16 here:
+			// the API gives a property no data)
+			e := b[24 : len(b)-16*len(vd.L["Properties"])]
 			want := wire.MsgCodes.ByKind[inner.K]
 			if e[0] != 4 || uint64(e[1]) != want || be16(e[2:4]) != len(e) {
 				bad("embedded-frame", fmt.Sprintf("message embedded in bundle-add: version %d type %d length %d, embedded bytes %d (want version 4, type %d)", e[0], e[1], be16(e[2:4]), len(e), want))
